@@ -6,6 +6,7 @@ import (
 	"os"
 	"path/filepath"
 	"strings"
+	"time"
 
 	builder "github.com/acekingke/yaccgo/Builder"
 	utils "github.com/acekingke/yaccgo/Utils"
@@ -28,12 +29,19 @@ func (c10) renderings(tier string) int {
 	}
 	return 8
 }
-func (c10) NumCases(tier string) int {
+func (c10) regularCases(tier string) int {
 	if tier == "thorough" {
 		return 30000
 	}
 	return 1500
 }
+func (c10) cliCases(tier string) int {
+	if tier == "thorough" {
+		return 400
+	}
+	return 32
+}
+func (p c10) NumCases(tier string) int { return p.regularCases(tier) + p.cliCases(tier) }
 func (c10) Rule() string {
 	return "case = one abstract specification (random: explicit token numbers, literals incl. quote/brace/percent characters, tags, tokens declared by %token / only on a precedence line / only used in rules, %prec, non-first start symbol, empty alternatives, hostile brace-balanced action bodies with comments) rendered 8 (quick) or 16 (thorough) times with random layout (blanks, tabs, newlines, // and /* */ comments with hostile bodies between any two tokens, optional ';', '|' or repeated lhs, reordered declaration lines, %union brace on the next line, second %% omitted when the epilogue is empty); each rendering is parsed by the real ParseAndBuild and the extracted grammar (rule order, lhs, rhs, %prec symbol, action text byte for byte, start symbol, token numbers, tags, precedence order and associativity, prologue / %union / epilogue text) is compared with the specification, and with the extraction of the canonical rendering (metamorphic leg); for a sample the Go and TypeScript generators are run in-process and the output file must contain prologue and union text, every action under its own case label, and end with exactly the epilogue; non-trivial = rendering that contains at least one comment and one omitted ';'; distinct by rendering text"
 }
@@ -67,7 +75,108 @@ type extraction struct {
 	gtable  string
 }
 
-func (c10) Run(seed int64, tier string, idx int) Outcome {
+// runCLI: the file given to the real binary must be read exactly like the text given to the library:
+// the output of `yaccgo generate` must be byte-identical to the in-process generation from the same
+// text. Layouts include "minified" grammars whose rule section is one physical line of many kilobytes.
+func (c10) runCLI(seed int64, idx int) Outcome {
+	r := caseRng(seed, "C10-cli", idx)
+	o := Outcome{Status: "held"}
+	var g *spec.Grammar
+	if idx%2 == 0 {
+		g = gen.Big(r)
+		for k := range g.Rules {
+			// long action texts make the single line exceed any reasonable I/O buffer
+			g.Rules[k].Act.Raw = "/* " + strings.Repeat(fmt.Sprintf("rule %d padding ", k), 4+r.Intn(8)) + "*/"
+		}
+	} else {
+		g = gen.Rich(r, gen.RichCfg{Names: true, IntTags: true, LongRhs: true})
+	}
+	parts := render.Parts{Prologue: "package p\nimport \"fmt\"", Union: plainParts.Union, Epilogue: "\nfunc GetToken() int { return -1 }\n"}
+	var ro render.Options
+	switch idx % 4 {
+	case 0:
+		ro.OneLineRules = true
+	case 1:
+		ro.Rng = rand.New(rand.NewSource(r.Int63()))
+	case 2:
+		ro.OneLineRules = true
+		parts.Epilogue = "\n// " + strings.Repeat("a very long epilogue line ", 400) + "\n"
+	}
+	text := render.Render(g, parts, ro)
+	maxLine := 0
+	for _, ln := range strings.Split(text, "\n") {
+		if len(ln) > maxLine {
+			maxLine = len(ln)
+		}
+	}
+	dir := filepath.Join(scratch(), fmt.Sprintf("c10cli-%d-%d", os.Getpid(), idx))
+	os.MkdirAll(dir, 0755)
+	defer os.RemoveAll(dir)
+	os.WriteFile(filepath.Join(dir, "g.y"), []byte(text), 0644)
+	o.Replay = map[string]interface{}{"grammar": text}
+	for vi, variant := range [][]string{{"go"}, {"go", "-o", "-u"}, {"typescript"}} {
+		if (idx+vi)%3 == 2 && vi > 0 {
+			continue
+		}
+		args := append(append([]string{"generate"}, variant...), "g.y", "cli.out")
+		res := runCLI(30, 2*time.Minute, dir, args...)
+		cliOut, err := os.ReadFile(filepath.Join(dir, "cli.out"))
+		os.Remove(filepath.Join(dir, "cli.out"))
+		o.count("eval:cli:generations", 1)
+		inOut := filepath.Join(dir, "inproc.out")
+		var gerr error
+		var pan interface{}
+		yx.CaptureStdout(func() {
+			defer func() { pan = recover() }()
+			utils.PackFlags, utils.ObjectMode = true, false
+			for _, f := range variant[1:] {
+				if f == "-u" {
+					utils.PackFlags = false
+				}
+				if f == "-o" {
+					utils.ObjectMode = true
+				}
+			}
+			if variant[0] == "go" {
+				gerr = builder.TemplateGenFromString(text, inOut)
+			} else {
+				gerr = builder.TsGenFromString(text, inOut)
+			}
+		})
+		utils.PackFlags, utils.ObjectMode = true, false
+		want, _ := os.ReadFile(inOut)
+		os.Remove(inOut)
+		if gerr != nil || pan != nil {
+			o.Status = "inconclusive"
+			o.Detail = fmt.Sprintf("in-process generation failed: %v %v", gerr, pan)
+			return o
+		}
+		if res.Exit != 0 || err != nil {
+			o.Status = "violated"
+			o.Detail = fmt.Sprintf("the library accepts this text but `yaccgo generate %v` on a file with the same bytes fails (exit %d): %s\nlongest line: %d bytes", variant, res.Exit, trunc(res.Out, 400), maxLine)
+			return o
+		}
+		if string(cliOut) != string(want) {
+			o.Status = "violated"
+			o.Detail = fmt.Sprintf("`yaccgo generate %v` on the file and generation from the same text in-process give different output (the file is not read faithfully); longest line %d bytes; %s", variant, maxLine, firstDiff(string(want), string(cliOut)))
+			return o
+		}
+	}
+	if maxLine > 4096 {
+		o.count("cli:files_with_a_line_longer_than_4096_bytes", 1)
+	}
+	if maxLine > 65536 {
+		o.count("cli:files_with_a_line_longer_than_65536_bytes", 1)
+	}
+	o.Nontrivial = true
+	o.Hash = hashOf("cli", text)
+	return o
+}
+
+func (p c10) Run(seed int64, tier string, idx int) Outcome {
+	if reg := p.regularCases(tier); idx >= reg {
+		return p.runCLI(seed, idx-reg)
+	}
 	r := caseRng(seed, "C10", idx)
 	g := gen.Rich(r, gen.RichCfg{Names: idx%2 == 0, IntTags: true, LongRhs: idx%5 == 0, EOFAlias: true})
 	actions := make([]string, len(g.Rules))
